@@ -20,7 +20,7 @@ RULE = ("ttl {1,1.5,4,3600,none} x delivery instant {E-1s,E-1us,E,E+1us,E+1s} x 
 ASSUMPTIONS = ["Redis and RabbitMQ are wire-level fakes", "virtual time; exact instants only at zero wire latency (redis polls priorities with 0.1 s sleeps, so its instants are approximate; the oracle uses the observed instants)",
                "with wire latency l the execution allowance after E is 2l + 0.35 s"]
 EVAL_COUNTER = "messages_judged"
-REQUIRED = ["messages_judged", "executed_live", "dead_lettered_expired", "dead_retrieved", "boundary_exact", "kind_retry_cross", "kind_retry_late", "kind_resched", "priority_high", "priority_low"]
+REQUIRED = ["messages_judged", "executed_live", "dead_lettered_expired", "dead_retrieved", "boundary_exact", "kind_retry_cross", "kind_retry_late", "kind_resched", "priority_high", "priority_low", "timezone_offset_runs"]
 CASE_TIMEOUT = 120
 
 TTLS = [1.0, 1.5, 4.0, 3600.0, 90000.0, 172800.0, None]
@@ -51,6 +51,10 @@ def gen_cases(tier, seed):
                     if tier == "quick" and lat is not None and it["kind"] not in ("immediate", "retry_cross", "retry_late", "resched"):
                         continue
                     cases.append({"broker": broker, "latency": lat, "seed": rnd.randrange(10**6), "phase": ph if ph is not None else rnd.choice([0.0, 0.25, 0.5, 0.999]), **it})
+    # the same property on a machine whose local time is not UTC (timestamps are naive local datetimes)
+    for tz in ("AAA-5", "BBB5", "CCC-0:30"):
+        for mode in ("live_recurring", "expired_after_reschedule"):
+            cases.append({"broker": "mem", "kind": "tz", "tz": tz, "mode": mode, "ttl": None, "delta": 0.0, "latency": None, "seed": rnd.randrange(10**6), "phase": 0.0})
     return cases
 
 
@@ -248,11 +252,82 @@ async def scenario(loop, case, out, stats, fps, samples):
         await w.close()
 
 
+async def tz_scenario(loop, case, out, stats, fps):
+    """Local time zone with a non-zero UTC offset: the time-to-live of a rescheduled message still counts from its
+    rescheduling, in the same clock the expiry test uses. Only public API, no arithmetic on the harness epoch."""
+    from repid import Job, Router, Worker
+    from repid.converter import BasicConverter
+    from repid.message import MessageCategory
+    from repid.router import RouterDefaults
+    from rv.rigs import Rig
+
+    rig = Rig("mem", loop)
+    try:
+        conn = rig.make_connection("p1")
+        await conn.connect()
+        await conn.message_broker.queue_declare("default")
+        r = Router(defaults=RouterDefaults(converter=BasicConverter))
+        runs = []
+
+        async def tick():
+            runs.append(datetime.now())
+
+        r.actor(name="tick")(tick)
+        stats["messages_judged"] += 1
+        stats["timezone_offset_runs"] += 1
+        fps.add(f"tz/{case['tz']}/{case['mode']}")
+        if case["mode"] == "live_recurring":
+            # ttl 3 s, every second: each iteration is well inside its restarted ttl
+            await Job("tick", id_="z1", ttl=timedelta(seconds=3), deferred_by=timedelta(seconds=1), store_result=False, _connection=conn).enqueue()
+            w = Worker(routers=[r], messages_limit=3, handle_signals=[], _connection=conn)
+            try:
+                await asyncio.wait_for(w.run(), 12)
+            except asyncio.TimeoutError:
+                pass
+            if len(runs) < 3:
+                out.append(V("live_dead_lettered", "mem", "timezone-offset", f"TZ={case['tz']}: recurring job (ttl 3 s, period 1 s) ran {len(runs)} times in 12 s; state {rig.snapshot().get('z1')}"))
+            else:
+                stats["executed_live"] += 1
+        else:
+            # ttl 1 s, period 2.5 s: the rescheduled message is due after its restarted ttl has run out
+            await Job("tick", id_="z2", ttl=timedelta(seconds=1), deferred_until=datetime.now() + timedelta(seconds=0.2), deferred_by=timedelta(seconds=2.5), store_result=False, _connection=conn).enqueue()
+            w = Worker(routers=[r], messages_limit=2, handle_signals=[], _connection=conn)
+            try:
+                await asyncio.wait_for(w.run(), 8)
+            except asyncio.TimeoutError:
+                pass
+            if len(runs) > 1:
+                out.append(V("expired_executed", "mem", "timezone-offset", f"TZ={case['tz']}: iteration 2 (ttl 1 s, due 2.5 s after its rescheduling) was executed at {runs[1]}"))
+            elif rig.snapshot().get("z2") == ["dead"]:
+                stats["dead_lettered_expired"] += 1
+        await conn.disconnect()
+    finally:
+        rig.close()
+
+
 def run_case(case):
     from rv.sim import loop as vl
 
     stats = collections.Counter()
     out, fps, samples = [], set(), []
+    if case.get("kind") == "tz":
+        import os
+        import time as _time
+
+        old = os.environ.get("TZ")
+        os.environ["TZ"] = case["tz"]
+        _time.tzset()
+        try:
+            res = vl.run(lambda loop: tz_scenario(loop, case, out, stats, fps), max_steps=3_000_000, seed=case["seed"])
+        finally:
+            if old is None:
+                os.environ.pop("TZ", None)
+            else:
+                os.environ["TZ"] = old
+            _time.tzset()
+        if res.exc is not None:
+            out.append(V("harness_or_api_error", "mem", "tz", f"{type(res.exc).__name__}: {res.exc}"))
+        return {"fp": None, "fps": sorted(fps), "viol": out[:8], "stats": dict(stats)}
     res = vl.run(lambda loop: scenario(loop, case, out, stats, fps, samples), max_steps=3_000_000, seed=case["seed"])
     if res.exc is not None:
         out.append(V("harness_or_api_error", case["broker"], "scenario", f"{type(res.exc).__name__}: {res.exc}"))
